@@ -125,6 +125,9 @@ type Fn struct {
 	// DataSuffix / LenSuffix: a path ending in DataSuffix denotes a byte slice whose length is the path with LenSuffix
 	// instead (type invariant established by the constructor), e.g. ".file.data" / ".file.len".
 	DataSuffix, LenSuffix string
+	// Sub prepares another function of the library with the same configuration (for call summaries).
+	Sub   func(*ssa.Function) *Fn
+	depth int
 }
 
 // New prepares a function. immutable reports whether a field path (e.g. "r.file.len") may be treated as one
@@ -291,6 +294,10 @@ func (f *Fn) Norm(v ssa.Value) Expr {
 				return f.LenOf(x.Call.Args[0])
 			}
 		}
+		if e, ok := f.inlineCall(x); ok {
+			return e
+		}
+		f.summariseCall(x)
 	}
 	if u, ok := v.(*ssa.UnOp); ok && u.Op == token.MUL {
 		if ia, ok := u.X.(*ssa.IndexAddr); ok {
